@@ -120,3 +120,20 @@ reg("C10", "exploration",
     quick=[("F1h", 1500)], thorough=[("F1h", 100000)],
     assumptions=["the child process itself is a stub (simhook); template rendering, filtering, ordering, environment assembly and failure handling are the shipped code",
                  "for account file hooks only 'account over process' is asserted (the manual does not say whether the global table reaches accounts)"])
+
+reg("C09", "exploration",
+    "F7: limiter swarm: 1..6 certificates and 1..3 accounts on one endpoint with 1..3 limits (n in 1..20, periods 1 s..10 s, plus per-minute and per-hour limits, free in virtual "
+    "time), bursts after idle (renewals), retry storms from scripted recoverable errors and badNonce answers. Oracle: the transport seam stamps every request (GET, POST, nonce fetch, "
+    "retry, poll) with the virtual clock at the limiter's admission instant; for every limit (n, p) and every request instant t the window (t-p, t] holds at most n requests -- exact, "
+    "no slack. Liveness: every certificate is issued within the run's budget. Non-trivial = a run with at least one limited request stream.",
+    quick=[("F7", 1200)], thorough=[("F7", 50000)],
+    assumptions=["limits are per endpoint and per daemon run (the limiter's memory does not survive a restart)", "periods of 0s and limits of 0 are not generated (C19's subject)"])
+
+reg("C12", "exploration",
+    "F5: 2..8 certificates over 1..3 accounts and 1..3 endpoints in every sharing pattern; seeded completion latencies, same-instant tie-breaks, zero-sleep yields, initial poll order, "
+    "lock-fairness mode; first registration raced, CA-forgotten accounts, pending contact/key changes after restarts. Oracles: executor deadlock and livelock detectors, per-attempt "
+    "termination, newAccount ledger per (key, endpoint) (each extra registration paid by a distinct accountDoesNotExist answer or a binding change), nonce ledger (no POST carries a nonce "
+    "consumed by another). Worker-thread counts are not a dimension: acmed has one task. Non-trivial = a run with at least two certificates; interleavings are counted as distinct hashes of "
+    "the (resource, event-kind) sequence.",
+    quick=[("F5", 1000)], thorough=[("F5", 150000)],
+    assumptions=["runtime worker threads (1, 2, 4, 16) cannot change which interleavings exist: nothing is spawned, all certificates are one FuturesUnordered inside block_on"])
